@@ -10,6 +10,7 @@
    caller observes through fill_buf / consume / virtual_position / position. *)
 From Coq Require Import List Arith NArith Bool.
 From NV Require Bgzf.Vpos Bgzf.Gzi Bgzf.ReaderOps Io.Sched Io.SchedProofs Async.Reader Async.ReaderProofs.
+From NV Require Base.LE Bgzf.Crc32 Bgzf.Frame Bgzf.Writer Async.Writer Async.WriterProofs.
 From NV Require Import Async.Framing Async.FramingProofs.
 Import ListNotations.
 
@@ -182,3 +183,68 @@ Example c16_reader_example :
   /\ ReaderOps.run true f [] (ReaderOps.init f) ops = a_run 3 2 sch f [] (a_init f) ops.
 Proof. vm_compute. split; reflexivity. Qed.
 End RD.
+
+(* ============================================================================================
+   The async BGZF WRITER (model: NV.Async.Writer -- staging buffer of MAX_BUF_SIZE with its LAZY
+   flush, tokio write_all, poll_flush handing Deflate tasks to the bounded Buffer sink, the
+   Buffer/Deflater/blocking-pool pipeline as an instance of NV.Io.Sched, poll_shutdown = flush,
+   close, EOF marker) against the sync writer model of property C01 (NV.Bgzf.Writer).
+   DEFLATE is a parameter shared by both writers (same compression level).
+   ============================================================================================ *)
+Module WR.
+Import NV.Bgzf.Frame NV.Bgzf.Writer NV.Io.Sched NV.Async.Writer NV.Async.WriterProofs.
+
+(* FULL STATEMENT for the writer: for EVERY script of write / write_all / flush calls followed by
+   shutdown(), EVERY worker count, pool size and EVERY complete schedule of the deflate pipeline
+   (tasks finishing in any order), the bytes the inner writer has received are exactly the file
+   the sync writer produces for the same calls followed by finish(), at the same compression
+   level (premise H_l0: stored blocks add at most 15 bytes -- the documented DEFLATE bound that
+   makes deflate.rs's unreachable!() unreachable, also the premise of C01's theorems). *)
+Theorem c16_async_writer_equals_sync :
+  forall (deflate : N -> list N -> list N) (lvl : N),
+    (forall x, (lenN x <= MAX_BUF_SIZE)%N -> (lenN (deflate 0%N x) <= MAX_COMPRESSED_SIZE)%N) ->
+    forall (W P : nat) (ops : list aop) (sched : list act),
+      w_final (w_run (fr deflate lvl) W P (a_blocks ops) sched) = true ->
+      a_sink (fr deflate lvl) W P ops sched
+      = o_sink (run_script deflate lvl (map sync_op ops) EFinish).
+Proof. exact async_writer_equals_sync. Qed.
+Print Assumptions c16_async_writer_equals_sync.
+
+(* the block sequence: the sync writer's file is the frames of exactly the blocks the async
+   writer cuts (although the async writer flushes a full staging buffer lazily, at the next
+   write, and the sync writer eagerly), then the EOF marker; the values returned by the calls
+   (bytes accepted by each write) agree and no call fails *)
+Theorem c16_async_writer_equals_sync_blocks :
+  forall (deflate : N -> list N -> list N) (lvl : N),
+    (forall x, (lenN x <= MAX_BUF_SIZE)%N -> (lenN (deflate 0%N x) <= MAX_COMPRESSED_SIZE)%N) ->
+    forall ops,
+      let o := run_script deflate lvl (map sync_op ops) EFinish in
+      o_sink o = bytes deflate lvl (a_blocks ops) ++ eof_block /\
+      map fst (o_results o) = a_results ops /\ o_end o = Ok tt.
+Proof. exact sync_writer_blocks. Qed.
+Print Assumptions c16_async_writer_equals_sync_blocks.
+
+(* and the pipeline writes the frames in submission order whatever the completion order *)
+Theorem c16_async_writer_pipeline_in_order :
+  forall (deflate : N -> list N -> list N) (lvl : N) W P blocks sched,
+    w_final (w_run (fr deflate lvl) W P blocks sched) = true ->
+    cs (w_run (fr deflate lvl) W P blocks sched) = bytes deflate lvl blocks.
+Proof. exact pipeline_in_order. Qed.
+Print Assumptions c16_async_writer_pipeline_in_order.
+
+(* non-vacuity: a complete schedule with out-of-order completion exists (2 workers, 2 threads,
+   three blocks; tasks 1 then 0 complete before anything is written) and the blocks are cut where
+   expected *)
+Example c16_writer_example :
+  let ops := [AWriteAll [1; 2; 3]; AFlush; AFlush; AWrite [4]; AWriteAll [5; 6]; AFlush; AWriteAll [7]]%N in
+  a_blocks ops = [[1; 2; 3]; [4; 5; 6]; [7]]%N /\
+  a_results ops = [Ok None; Ok None; Ok None; Ok (Some 1%N); Ok None; Ok None; Ok None] /\
+  let sched := [Submit; Submit; Start; Start; Complete 1; Complete 0; Take; Emit; Submit; Start;
+                Take; Emit; Complete 2; Take; Emit] in
+  forall fr, w_final (w_run fr 2 2 (a_blocks ops) sched) = true /\
+             cs (w_run fr 2 2 (a_blocks ops) sched) = fr [1; 2; 3]%N ++ fr [4; 5; 6]%N ++ fr [7]%N.
+Proof.
+  cbn zeta. split; [vm_compute; reflexivity|]. split; [vm_compute; reflexivity|].
+  intros fr. split; [reflexivity|]. lazy -[app]. rewrite app_nil_l, <- !app_assoc. reflexivity.
+Qed.
+End WR.
